@@ -170,6 +170,22 @@ def _agree(ctx, entry_label, base_sp, base, sp, obs):
             ctx.fail('spelling-disagree-mass', a[1], b[1], entry=entry_label, spelling=[base_sp, sp], what=names[k])
 
 
+def _spaced_formula(text):
+    toks = text.split()
+    if len(toks) % 2:
+        return None
+    comp = {}
+    for sym, cnt in zip(toks[::2], toks[1::2]):
+        if sym.startswith('('):
+            sym = sym[1:].replace(')', '')
+        try:
+            refdata.atom_mass(sym)
+            comp[sym] = comp.get(sym, 0) + int(cnt)
+        except (KeyError, ValueError):
+            return None
+    return {k: v for k, v in comp.items() if v}
+
+
 def _nz(comp):
     return {k: v for k, v in comp.items() if v != 0} if isinstance(comp, dict) else comp
 
@@ -273,6 +289,21 @@ def check(case, ctx):
                     ctx.fail('library-comp-vs-table', comp, base[2][1], entry=label, spelling=base_sp)
                 if base[0][0] != 'ok':
                     ctx.fail('library-cannot-resolve-entry', e['mono'], base[0][1], entry=label, spelling=base_sp)
+        if db == 'psimod' and e.get('formula') not in (None, 'none'):
+            # PSI-MOD rows spell their composition as 'C 2 H 2 O 1' / '(13)C 6': the library's composition is that one
+            # (an all-zero row is the empty composition with mass 0, not an unresolvable entry)
+            comp = _spaced_formula(e['formula'])
+            if comp is not None:
+                if base[2][0] != 'ok' or _nz(base[2][1]) != comp:
+                    ctx.fail('library-comp-vs-table', comp, _s(base[2]), entry=label, spelling=base_sp)
+                if not comp and (base[0][0] != 'ok' or base[0][1] != 0):
+                    ctx.fail('library-mono-vs-table', 0.0, _s(base[0]), entry=label, spelling=base_sp)
+                if not comp:
+                    for alt, want in ((base_sp + '|Formula:C2H2O', {}), ('Foo|' + base_sp, {})):
+                        st, got = lib.call(p.mod_comp, alt)
+                        ctx.evals += 1
+                        if st != 'ok' or _nz(got) != want:
+                            ctx.fail('alternatives-first-resolvable', want, got, spelling=alt)
         ctx.outcome = [label, _s(base[0])]
     elif kind == 'cross':
         # one key, several vocabularies: whichever vocabulary is asked first, each prefixed spelling answers as it does
